@@ -2100,6 +2100,7 @@ def _fold_regex_method(base, meth, args):
                     return Const(None)
                 o = Obj('rematch', {}, None)
                 o.pymatch = mt
+                o.truth = True          # a match object is truthy
                 return o
             if meth in ('findall', 'split', 'sub'):
                 return _term_of_py(getattr(rx, meth)(*cargs))
@@ -2108,6 +2109,7 @@ def _fold_regex_method(base, meth, args):
                 for mt in rx.finditer(*cargs):
                     o = Obj('rematch', {}, None)
                     o.pymatch = mt
+                    o.truth = True
                     out.append(o)
                 return Tup(tuple(out), 'list')
         if base.cls == 'rematch' and meth in ('groups', 'group', 'span', 'start', 'end', 'groupdict'):
